@@ -122,23 +122,13 @@ func readBack(ls *ipld.LinkSystem, de DirEntry, isRoot bool) {
 	}
 }
 
-// VerifFixtureGenerators (C19).
-func VerifFixtureGenerators() {
-	target := verifrt.Param("target", 2048)
+// runGenerator runs generator `which` once and checks its description.
+func runGenerator(which int, target int, rr io.Reader, shardedGD bool) {
 	st := verifmodel.NewStore()
 	ls := st.LinkSystem()
-	var rr io.Reader = symReader{n: new(int)}
-	if verifrt.Native() {
-		// the scripted draws cannot be imposed on the real crypto/rand + namegen code:
-		// natively the real generators run on a fixed pseudo-random stream
-		rr = mrand.New(mrand.NewSource(int64(verifrt.Param("seed", 7))))
-	} else {
-		(&script{freeCoins: verifrt.Param("freecoins", 2), freeNames: verifrt.Param("freenames", 2)}).install(target)
-	}
 	var de DirEntry
 	var err error
 	t := &stubT{}
-	which := verifrt.Choose(4)
 	switch which {
 	case 0:
 		de, err = UnixFSDirectory(*ls, target, WithRandReader(rr))
@@ -146,7 +136,10 @@ func VerifFixtureGenerators() {
 	case 1:
 		de, err = UnixFSDirectory(*ls, target, WithRandReader(rr), WithShardBitwidth(3))
 	case 2:
-		de = GenerateDirectory(t, ls, rr, target, verifrt.Choose(2) == 1)
+		panicked, _ := verifrt.Catch(func() { de = GenerateDirectory(t, ls, rr, target, shardedGD) })
+		if panicked {
+			t.failed = true
+		}
 	case 3:
 		// custom child generator: two files named by the generator's argument
 		n := 0
@@ -164,6 +157,28 @@ func VerifFixtureGenerators() {
 	verifrt.Assert(err == nil && !t.failed, "fixture:generator-ok")
 	verifrt.Assert(de.Path == "", "fixture:root-path-empty")
 	readBack(ls, de, true)
+}
+
+// VerifFixtureGenerators (C19).
+func VerifFixtureGenerators() {
+	target := verifrt.Param("target", 2048)
+	which := verifrt.Choose(4)
+	if verifrt.Native() {
+		// the scripted draws cannot be imposed on the real crypto/rand + namegen code:
+		// natively the real generators run over a range of pseudo-random streams, and any
+		// failing stream confirms the violation
+		for seed := 0; seed < verifrt.Param("nativeseeds", 300); seed++ {
+			runGenerator(which, target, mrand.New(mrand.NewSource(int64(seed))), seed%2 == 1)
+		}
+		verifrt.Reach("end")
+		return
+	}
+	(&script{freeCoins: verifrt.Param("freecoins", 2), freeNames: verifrt.Param("freenames", 2)}).install(target)
+	shardedGD := false
+	if which == 2 {
+		shardedGD = verifrt.Choose(2) == 1
+	}
+	runGenerator(which, target, symReader{n: new(int)}, shardedGD)
 	verifrt.Reach("end")
 }
 
